@@ -655,7 +655,7 @@ func c03EarlyExits(c *Ctx, r *Report) {
 					}
 				}
 				facts := factsAt(fn, s)
-				ok := false
+				ok, rawLen := false, false
 				for _, f := range facts {
 					bin, isBin := f.Atom.(*ssa.BinOp)
 					if !isBin {
@@ -673,13 +673,18 @@ func c03EarlyExits(c *Ctx, r *Report) {
 						if !(sl[li.acc] || sl[li.accUpd]) {
 							continue
 						}
-						if anyIn(sl, callsFunc("domainNameLen", "escapedNameLen", "builtin.len")) {
+						// the remainder is measured in wire octets (escape-aware), not in presentation characters
+						if anyIn(sl, callsFunc("domainNameLen", "escapedNameLen")) {
 							ok = true
+						} else if anyIn(sl, callsFunc("builtin.len")) {
+							rawLen = true
 						}
 					}
 				}
 				if ok {
 					covered++
+				} else if rawLen {
+					problems = append(problems, fmt.Sprintf("%s: the total-length test on this way out measures the unscanned remainder in presentation characters (len), not in wire octets: every escape in it is counted as 2 or 4 octets, so a legal name close to 255 octets is refused when - and only when - it is compressed", c.pos(b.Instrs[len(b.Instrs)-1].Pos())))
 				} else {
 					problems = append(problems, fmt.Sprintf("%s: the label loop is left for %s without rejecting the name and without a total-length test that includes the labels not scanned yet: a name longer than 255 wire octets is accepted on this way out", c.pos(b.Instrs[len(b.Instrs)-1].Pos()), c.pos(firstPos(s))))
 				}
